@@ -187,6 +187,8 @@ class LoadScopeScheduling:
             for nodeid, completed in work_unit.items():
                 if not completed:
                     crashitem = nodeid
+                    # it is reported as failed: do not run it again
+                    work_unit[nodeid] = True
                     break
             else:
                 continue
@@ -197,7 +199,11 @@ class LoadScopeScheduling:
             )
 
         # Made uncompleted work unit available again
-        self.workqueue.update(workload)
+        self.workqueue.update(
+            (scope, work_unit)
+            for scope, work_unit in workload.items()
+            if not all(work_unit.values())
+        )
 
         for node in self.assigned_work:
             self._reschedule(node)
